@@ -716,14 +716,15 @@ func (dr *dirRepo) gc() error {
 
 // Write is used to push content into the blob.
 func (dru *dirRepoUpload) Write(p []byte) (int, error) {
+	// verify session still exists and update last write time
+	// the upload cache is accessed before taking the upload lock, pruning locks them in that order
+	if _, err := dru.dr.uploads.Get(dru.sessionID); err != nil {
+		return 0, fmt.Errorf("session expired %s: %w", dru.sessionID, err)
+	}
 	dru.mu.Lock()
 	defer dru.mu.Unlock()
 	if dru.w == nil {
 		return 0, fmt.Errorf("writer is closed")
-	}
-	// verify session still exists and update last write time
-	if _, err := dru.dr.uploads.Get(dru.sessionID); err != nil {
-		return 0, fmt.Errorf("session expired %s: %w", dru.sessionID, err)
 	}
 	n, err := dru.w.Write(p)
 	dru.size += int64(n)
@@ -732,41 +733,50 @@ func (dru *dirRepoUpload) Write(p []byte) (int, error) {
 
 // Close finishes an upload, verifying digest if requested, and moves it into the blob store.
 func (dru *dirRepoUpload) Close() error {
+	moved, err := dru.close()
+	if !moved {
+		return err
+	}
+	// the session is removed after releasing the upload lock, pruning locks the cache before the upload
+	err = errors.Join(err, dru.dr.uploads.Delete(dru.sessionID))
+	dru.dr.log.Debug("blob created", "repo", dru.dr.name, "digest", dru.Digest().String(), "err", err)
+	return err
+}
+
+// close moves the upload into the blob store, the return is true when the move was attempted.
+func (dru *dirRepoUpload) close() (bool, error) {
 	dru.mu.Lock()
 	defer dru.mu.Unlock()
 	err := dru.fh.Close()
 	if err != nil {
-		return errors.Join(err, os.Remove(dru.filename))
+		return false, errors.Join(err, os.Remove(dru.filename))
 	}
 	if dru.expect != "" && dru.d.Digest() != dru.expect {
-		return errors.Join(fmt.Errorf("digest mismatch, expected %s, received %s", dru.expect, dru.d.Digest()),
+		return false, errors.Join(fmt.Errorf("digest mismatch, expected %s, received %s", dru.expect, dru.d.Digest()),
 			os.Remove(dru.filename))
 	}
 	// move temp file to blob store
 	tgtDir := filepath.Join(dru.path, blobsDir, dru.d.Digest().Algorithm().String())
 	fi, err := os.Stat(tgtDir)
 	if err == nil && !fi.IsDir() {
-		return errors.Join(fmt.Errorf("failed to move file to blob storage, %s is not a directory", tgtDir),
+		return false, errors.Join(fmt.Errorf("failed to move file to blob storage, %s is not a directory", tgtDir),
 			os.Remove(dru.filename))
 	}
 	if err != nil {
 		//#nosec G301 directory permissions are intentionally world readable.
 		err = os.MkdirAll(tgtDir, 0755)
 		if err != nil {
-			return errors.Join(fmt.Errorf("unable to create blob storage directory %s: %w", tgtDir, err),
+			return false, errors.Join(fmt.Errorf("unable to create blob storage directory %s: %w", tgtDir, err),
 				os.Remove(dru.filename))
 		}
 	}
 	blobName := filepath.Join(tgtDir, dru.d.Digest().Encoded())
-	err = errors.Join(os.Rename(dru.filename, blobName), dru.dr.uploads.Delete(dru.sessionID))
-	dru.dr.log.Debug("blob created", "repo", dru.dr.name, "digest", dru.d.Digest().String(), "err", err)
-	return err
+	return true, os.Rename(dru.filename, blobName)
 }
 
 // Cancel is used to stop an upload.
 func (dru *dirRepoUpload) Cancel() error {
-	dru.mu.Lock()
-	defer dru.mu.Unlock()
+	// the upload lock is not held, pruning locks the cache before the upload
 	return dru.dr.uploads.Delete(dru.sessionID)
 }
 
